@@ -8,7 +8,7 @@
 (* catalogue (C09) if any, renders it, and prints the text together with   *)
 (* the model it denotes and the position of every tagged declaration.      *)
 (***************************************************************************)
-EXTENDS DslLayout
+EXTENDS DslWalk
 
 CONSTANTS JobAt(_), NumJobs
 VARIABLES ji, job
